@@ -91,6 +91,7 @@ void close_socket(NativeSocket socket) {
 #endif
 
 constexpr std::size_t kMaxLineLength = 16 * 1024;
+constexpr int kClientIdleTimeoutSeconds = 10;
 constexpr std::chrono::seconds kStoreRateWindow{std::chrono::seconds(30)};
 constexpr std::size_t kStoreRateBurstLimit = 6;
 constexpr std::chrono::seconds kStorePowFailureWindow{std::chrono::seconds(120)};
@@ -637,6 +638,15 @@ private:
             if (inet_ntop(AF_INET, &client_addr.sin_addr, buffer, sizeof(buffer)) != nullptr) {
                 remote_address = buffer;
             }
+#endif
+            // Requests are served one at a time: a client that stays silent must not block the others for ever.
+#ifdef _WIN32
+            const DWORD idle_timeout = kClientIdleTimeoutSeconds * 1000;
+            setsockopt(client, SOL_SOCKET, SO_RCVTIMEO, reinterpret_cast<const char*>(&idle_timeout), sizeof(idle_timeout));
+#else
+            timeval idle_timeout{};
+            idle_timeout.tv_sec = kClientIdleTimeoutSeconds;
+            setsockopt(client, SOL_SOCKET, SO_RCVTIMEO, &idle_timeout, sizeof(idle_timeout));
 #endif
             metrics_.control_connections_total.fetch_add(1, std::memory_order_relaxed);
             log_event(StructuredLogger::Level::Info,
